@@ -29,10 +29,10 @@ var findingDefs = []findingDef{
 		[]string{"C11:valid-", "C11:pool-valid-"}},
 	{"KF-FEATURE-OF-COLLECTION", "a Feature wrapping a collection is iterated as a single part (Feature.ForEach yields the Feature itself), so collection.Contains / Intersects ask each child to contain the whole wrapped collection: Feature(GeometryCollection[polygon, line]) does not contain itself and does not answer as the GeometryCollection it wraps when it is the argument of a collection predicate",
 		[]string{"C09:transparency-", "C09:reflexive-contains:Feature-Feature", "C10:feature-part"}},
-	{"KF-CIRCLE-RECT", "a Circle is a great-circle disc for points but its Rect() is the box of the 64-gon whose half-width is the longitude reached by heading due east, which does not cover the disc away from the equator: Circle((0,60), 2000 km) contains / intersects the point (33.25,60) (1,829 km away) although the rectangles are disjoint, and MultiPoint.Intersects(Circle) is false while Circle.Intersects(MultiPoint) is true",
-		[]string{"C09:contains=>rect-covers:Circle-", "C09:intersects=>rects-meet:Circle-", "C09:intersects=>rects-meet:Feature-Circle", "C09:intersects=>rects-meet:Point-Circle", "C09:intersects=>rects-meet:SimplePoint-Circle", "C09:symmetry:Circle-", "C09:symmetry:MultiPoint-Circle", "C13:rect-"}},
+	{"KF-CIRCLE-RECT", "a Circle is a great-circle disc for points but its Rect() is the box of the 64-gon whose half-width is the longitude reached by heading due east, which does not cover the disc away from the equator: Circle((0,60), 2000 km) contains / intersects the point (33.25,60) (1,829 km away) although the rectangles are disjoint, and MultiPoint.Intersects(Circle) is false while Circle.Intersects(MultiPoint) is true; a collection, which finds candidate children by rectangle, does not intersect a point that its Circle child (few steps: triangle / hexagon) does intersect",
+		[]string{"C09:contains=>rect-covers:Circle-", "C09:intersects=>rects-meet:Circle-", "C09:intersects=>rects-meet:Feature-Circle", "C09:intersects=>rects-meet:Point-Circle", "C09:intersects=>rects-meet:SimplePoint-Circle", "C09:symmetry:Circle-", "C09:symmetry:MultiPoint-Circle", "C13:rect-", "C10:compose-GeometryCollection-intersects(probe 3)", "C10:compose-FeatureCollection-intersects(probe 3)", "C10:compose-GeometryCollection-contains(probe 3)", "C10:compose-FeatureCollection-contains(probe 3)"}},
 	{"KF-CIRCLE-SPATIAL-POLYGON", "Circle.Spatial() returns the Spatial of the circle's polygon approximation, so the interface methods on a raw point (Spatial().IntersectsPoint / WithinPoint, as Tile38-style callers use them) answer by the 64-gon while Circle.Intersects / Contains of the Point object answer by the great-circle distance: a point between the polygon and the rim of the disc gets opposite answers, e.g. Circle((1,1), 111.4 km) and its rim probes",
-		[]string{"C09:spatial-interface:Circle-"}},
+		[]string{"C09:spatial-interface:Circle-", "C10:compose-GeometryCollection-spatial-interface(probe", "C10:compose-FeatureCollection-spatial-interface(probe"}},
 	{"KF-CIRCLE-DROPS-MEMBERS", "a Feature in the Circle convention keeps only the centre's x,y and the radius: id, bbox, other members of the feature or of its properties, members of the point geometry and z/m ordinates are dropped by Parse and absent from JSON()",
 		[]string{"*:circle-drops-members"}},
 	{"KF-MIXED-DIMS-REJECTED", "a LineString / Polygon / Multi* coordinate member whose first position has two ordinates and a later one three or four is rejected ('invalid coordinates') although every position is an array of two to four numbers; deliberate in the parser (dimensionality is fixed by the first position)",
